@@ -133,7 +133,7 @@ Fixpoint dec_optrace (fuel : nat) (l : list Z) : list (list event) :=
   end.
 
 Definition enc_state (s : st) : list Z :=
-  [cs_code (cs s); b2z (has_sock s); b2z (regw s); Z.of_nat (length (outq s)); b2z (ping s); proto s].
+  [cs_code (cs s); b2z (has_sock s); b2z (regw s); Z.of_nat (length (outq s)); b2z (ping s); proto s; b2z (cq s)].
 Definition enc_step (r : st * list event) : list Z :=
   Z.of_nat (length (snd r)) :: flat_map enc_event (snd r) ++ enc_state (fst r).
 
